@@ -168,6 +168,13 @@ func reproduced(v *violation, nr *nativeRun) bool {
 	switch v.Kind {
 	case "panic":
 		return nr.Panic != ""
+	case "wedge":
+		for _, f := range nr.Failed {
+			if f == v.Label {
+				return true
+			}
+		}
+		return nr.TimedOut
 	case "deadlock":
 		return nr.TimedOut || strings.Contains(nr.Raw, "all goroutines are asleep") || strings.Contains(nr.Raw, "test timed out")
 	}
